@@ -145,6 +145,16 @@ impl Validator {
                         warnings.push(e.into());
                     }
                 };
+                // an instance of a parameterized type has taken over the `COMPONENTS OF` of
+                // its template, which may not have been expanded yet
+                if self.has_components_of_notation(&key) {
+                    if let Some((k, ToplevelDefinition::Type(mut tld))) =
+                        self.tlds.remove_entry(&key)
+                    {
+                        tld.ty.link_components_of_notation(&self.tlds);
+                        self.tlds.insert(k, ToplevelDefinition::Type(tld));
+                    }
+                }
             }
         }
         let mut keys = second_pass;
